@@ -443,6 +443,8 @@ def check(run):
         alines.append(atimes_line(c, c["y"]))
     # ---------------- conjugate gradient (model and implementation)
     scases = [gen_div(r, solve=True) for _ in range(40 * scale)]
+    for zc in scases[:2]:      # zero gradient data: |divergence| < EPS, integrate() must return at once and leave the surface alone
+        zc["ev"] = [(b, [0.0] * len(f)) for b, f in zc["ev"]]
     tol = 1e-6
     itmax = 400
     slines = [div_line(c, "SOLVE", " %d %s" % (itmax, V.hexf(tol))) for c in scases]
@@ -697,6 +699,47 @@ def check(run):
                 if it < itmax and not (rn <= 10 * tol * bn):
                     run.violation("solve:residual", "integrate() stopped after %d < %d iterations with |A x - b| / |b| = %g > tol = %g (|b| = %g; reported err %g) [case: %s]"
                                   % (it, itmax, rn / bn, tol, bn, err, l[:300]), {"kind": "unit", "case": l, "impl": so[:2000]})
+
+    # ---------------- repeated integrate() on unchanged data (projected ABF integrates at every step, every output integrates
+    # again from the previous surface): tiny grids whose first solve is exact, so that the second starts from a zero residual
+    rcases = []
+    for _ in range(12 if quick else 150):
+        c = gen_div(r, solve=True)
+        c["nxg"] = [r.choice([1, 2, 2]) if not p_ else 2 for p_ in c["per"]]
+        c["ev"] = [([r.randrange(n) for n in c["nxg"]], [float(r.randint(-4, 4)) for _ in range(c["nd"])]) for _ in range(r.randint(1, 4))]
+        c["npre"], c["nev"] = 0, len(c["ev"])
+        c["w"] = [1.0] * c["nd"] if r.random() < 0.7 else c["w"]
+        c["hs"] = 0
+        rcases.append(c)
+    rlines = [div_line(c, "SOLVE2", " %d %s" % (itmax, V.hexf(tol))) for c in rcases]
+    rcr, rout, er_ = V.run_lines(unit, rlines)
+    rcm_, rmod, em_ = V.run_lines(model, rlines)
+    if len(rout) != len(rlines):
+        run.violation("unit:crash", "the C16 unit driver died in the repeated-solve stream (rc=%d): %s" % (rcr, er_[-300:]), {"kind": "unit", "case": rlines[len(rout)] if len(rout) < len(rlines) else None})
+    else:
+        nexact = 0
+        for c, l, so, mo in zip(rcases, rlines, rout, rmod if len(rmod) == len(rlines) else [None] * len(rlines)):
+            p = split_bar(so)
+            it, err = int(p[0][1]), float.fromhex(p[0][2])
+            b, x = parse_floats(p[1]), parse_floats(p[2])
+            run.count(l, True)
+            if mo is not None:
+                pm = split_bar(mo)
+                if pm[0][:2] != p[0][:2] or not same(parse_floats(pm[2]), x):
+                    run.mismatch("solve-repeated", l, so[:400], mo[:400])
+            bn = math.sqrt(sum(v * v for v in b))
+            if not finite(x) or err != err:
+                run.violation("solve:repeated-not-finite", "a second integrate() on unchanged data returned a non-finite surface or error (%d iterations, err %r): the first "
+                              "solve was exact and the second divides 0 by 0 [case: %s]" % (it, err, l[:300]), {"kind": "unit", "case": l, "impl": so[:1000]})
+                continue
+            if bn > 1e-14:
+                nxp = [n if pe else n + 1 for n, pe in zip(c["nxg"], c["per"])]
+                Ax = [float(v) for v in lap_oracle({"nd": c["nd"], "per": c["per"], "nxp": nxp, "w": c["w"]}, x)]
+                rn = math.sqrt(sum((u - v) ** 2 for u, v in zip(Ax, b)))
+                nexact += (rn == 0.0)
+                if not (rn <= 10 * tol * bn):
+                    run.violation("solve:residual", "after a repeated integrate() |A x - b| / |b| = %g > tol [case: %s]" % (rn / bn, l[:300]), {"kind": "unit", "case": l, "impl": so[:1000]})
+        run.dist("solve:repeated-exactly-solved", nexact)
 
     # ---------------- the energy b.x - x.Ax/2 (half the squared A-norm of the error, up to a constant) never increases
     # from one iteration to the next (C16_cg_error_monotone): the solver is stopped after 1, 2, 3, 5, 8, 13 iterations
